@@ -45,16 +45,53 @@ def make_pack(src, deltas):
     return bytes(body)
 
 
-def read_idx_oids(path):
+def read_idx_oids(path, hashlen=20):
     data = open(path, "rb").read()
     if data[:8] != b"\xfftOc\x00\x00\x00\x02":
         raise ValueError("not a v2 idx")
     n = struct.unpack(">I", data[8 + 255 * 4: 8 + 256 * 4])[0]
     off = 8 + 1024
-    return [data[off + 20 * i: off + 20 * (i + 1)] for i in range(n)]
+    return [data[off + hashlen * i: off + hashlen * (i + 1)] for i in range(n)]
 
 
-def index_pack(tmp, pack, name="p", strict=False):
+def obj_oid(typ, b, fmt="sha1"):
+    h = hashlib.sha256() if fmt == "sha256" else hashlib.sha1()
+    h.update(b"%s %d\0" % (typ.encode(), len(b)) + b)
+    return h.digest()
+
+
+TYPE_NUM = {"commit": 1, "tree": 2, "blob": 3, "tag": 4}
+
+
+def make_pack_entries(entries, fmt="sha1"):
+    """entries: list of ('full', type, content) | ('ref', base oid bytes, delta bytes) -> pack bytes"""
+    body = bytearray(b"PACK" + struct.pack(">II", 2, len(entries)))
+    for e in entries:
+        if e[0] == "full":
+            body += entry_header(TYPE_NUM[e[1]], len(e[2])) + zlib.compress(e[2], 1)
+        else:
+            body += entry_header(OBJ_REF, len(e[2])) + e[1] + zlib.compress(e[2], 1)
+    h = hashlib.sha256() if fmt == "sha256" else hashlib.sha1()
+    h.update(body)
+    return bytes(body) + h.digest()
+
+
+def verify_pack(tmp, name="p", fmt="sha1"):
+    """`git verify-pack -v` on tmp/<name>.idx -> (ok, {oid hex: (type, size, depth, base hex or None)} or stderr)"""
+    p = subprocess.run([GIT, "verify-pack", "-v"] + (["--object-format=sha256"] if fmt == "sha256" else []) +
+                       [os.path.join(tmp, name + ".idx")], cwd=tmp, env=ENV,
+                       stdout=subprocess.PIPE, stderr=subprocess.PIPE, timeout=120)
+    if p.returncode != 0:
+        return False, p.stderr.decode("utf-8", "replace")
+    res = []
+    for line in p.stdout.decode().splitlines():
+        f = line.split()
+        if len(f) >= 5 and f[1] in TYPE_NUM:
+            res.append((f[0], f[1], int(f[2]), int(f[5]) if len(f) >= 7 else 0, f[6] if len(f) >= 7 else None, int(f[4])))
+    return True, res
+
+
+def index_pack(tmp, pack, name="p", strict=False, fmt="sha1"):
     """-> (ok, [oids] or stderr text)"""
     pp = os.path.join(tmp, name + ".pack")
     ip = os.path.join(tmp, name + ".idx")
@@ -64,11 +101,11 @@ def index_pack(tmp, pack, name="p", strict=False):
         os.remove(ip)
     except OSError:
         pass
-    args = [GIT, "index-pack"] + (["--strict"] if strict else []) + ["-o", ip, pp]
+    args = [GIT, "index-pack"] + (["--strict"] if strict else []) + (["--object-format=sha256"] if fmt == "sha256" else []) + ["-o", ip, pp]
     p = subprocess.run(args, cwd=tmp, env=ENV, stdout=subprocess.PIPE, stderr=subprocess.PIPE, timeout=120)
     if p.returncode != 0:
         return False, p.stderr.decode("utf-8", "replace")
-    oids = read_idx_oids(ip)
+    oids = read_idx_oids(ip, 32 if fmt == "sha256" else 20)
     return True, oids
 
 
